@@ -12,8 +12,9 @@ from ..cfg import cfg_of
 SCOPE_EXCLUDE = ("tests/", "plots/", "benchmarks/", "documentation/")
 
 # handlers that continue instead of re-raising: key -> why the continuation is a complete alternative
+# keyed by (file, callee that computes the alternative): the function around it may be renamed or split
 REVIEWED_FALLBACKS = {
-    "utils/expressions.py::get_all_roots": "Poly.all_roots failed: sympy.roots is complete below degree 5 and the handler re-raises from degree 5 on (checked by F-rootsource)",
+    ("utils/expressions.py", "roots"): "Poly.all_roots failed: sympy.roots is complete below degree 5 and the handler re-raises from degree 5 on (checked by F-rootsource)",
 }
 # functions that return a value on some paths and fall off the end on others: key -> why None is a proper answer
 REVIEWED_IMPLICIT_NONE = {
@@ -62,7 +63,8 @@ def rule_except_discipline(repo: Repo) -> List[Ob]:
                 if raises:
                     obs.append(Ob("E-except", key, f.relpath, h.lineno, f.qualname, True, "the handler re-raises (possibly as the project's own exception) on every path"))
                     continue
-                reason = REVIEWED_FALLBACKS.get(f"{f.relpath}::{f.qualname}")
+                alt_calls = {call_name(c0) for c0 in ast.walk(h) if isinstance(c0, ast.Call)}
+                reason = next((why for (rp0, callee), why in REVIEWED_FALLBACKS.items() if rp0 == f.relpath and callee in alt_calls), None)
                 # a handler that raises on some path and otherwise computes an alternative for the value of the try body
                 has_raise = any(isinstance(n, ast.Raise) for n in ast.walk(h))
                 if reason and has_raise:
